@@ -168,9 +168,14 @@ def _bloom_oracle(est, p):
     p32 = struct.unpack("f", struct.pack("f", p))[0]
     if p32 <= 0.0 or p32 >= 1.0:
         return False
-    want_m = math.ceil(-est * math.log(p32) / (math.log(2) ** 2))
-    want_k = round(math.log(2) * want_m / est)
-    if t != p32 or abs(m - want_m) > 1 or k < 1 or abs(k - want_k) > 1:
+    y = -est * math.log(p32) / 0.4804530139182
+    x = 0.6931471805599453 * m / est
+
+    def near(v, grid):      # within rounding noise of a tie / an integer: either neighbour is acceptable
+        return abs(v - grid) < 1e-9 * max(1.0, abs(v))
+    ok_m = m == math.ceil(y) or (near(y, round(y)) and abs(m - round(y)) <= 1)
+    ok_k = k == round(x) or (near(x - math.floor(x), 0.5) and abs(k - round(x)) <= 1)
+    if t != p32 or not ok_m or not ok_k or k < 1:
         return True
     fp_rate = (1 - math.exp(-k * est / m)) ** k
     return fp_rate > 1.07 * p32 * (1 + 1e-9)
@@ -196,13 +201,13 @@ def bloom_formula(ctx, cfg):
         ctx.reach("rejected")
         return
     D, RNE = fp.D, fp.RNE
-    n = z3.fpSignedToFP(RNE, z3.BitVecVal(est, 64), D)
+    n = z3.FPVal(float(est), D)
     t32 = z3.fpToFP(RNE, z3.fpToFP(RNE, p.t, fp.F32), D)
     # documented: m = ceil(-n ln p32 / ln^2 2), k = round(ln 2 * m / n)   (ln^2 2 and ln 2 as the published constants)
-    m_ref = z3.fpToSBV(z3.RTP(), z3.fpDiv(RNE, z3.fpMul(RNE, z3.fpNeg(n), fp.LOG(t32)), z3.FPVal(0.4804530139182, D)), z3.BitVecSort(64))
+    m_ref = z3.fpToSBV(z3.RTP(), z3.fpDiv(RNE, z3.fpMul(RNE, z3.FPVal(float(-est), D), fp.LOG(t32)), z3.FPVal(0.4804530139182, D)), z3.BitVecSort(64))
     k_ref = z3.fpToSBV(RNE, z3.fpRoundToIntegral(RNE, z3.fpDiv(RNE, z3.fpMul(RNE, z3.FPVal(0.6931471805599453, D), z3.fpSignedToFP(RNE, m_ref, D)), n)),
                        z3.BitVecSort(64))
-    uf_check(ctx, z3.And(m.t == m_ref, k.t == k_ref, z3.fpEQ(t.t, t32)), "bloom-size-is-documented-formula", {"p": p.t},
+    uf_check(ctx, z3.And(m.t == m_ref, k.t == k_ref, t.t == t32), "bloom-size-is-documented-formula", {"p": p.t},
              lambda v: _bloom_oracle(est, v["p"]), install)
 
 
@@ -285,7 +290,13 @@ def cuckoo_bits(ctx, cfg):
              lambda v: _finger_oracle(b, v["e"]), install)
 
 
-HARNESS = {"c07.narrowing": narrowing, "c07.cms_width": cms_width, "c07.lengths": lengths, "c07.bloom_formula": bloom_formula,
+def cuckoo_reload(ctx, cfg):
+    """a cuckoo filter sized by error rate keeps its fingerprint width (hence its error bound) across export -> load on both channels"""
+    from . import c05
+    return c05.roundtrip(ctx, cfg)
+
+
+HARNESS = {"c07.cuckoo_reload": cuckoo_reload, "c07.narrowing": narrowing, "c07.cms_width": cms_width, "c07.lengths": lengths, "c07.bloom_formula": bloom_formula,
            "c07.cms_depth": cms_depth, "c07.cuckoo_bits": cuckoo_bits}
 
 
@@ -299,6 +310,11 @@ def jobs(tier):
     js.append({"h": "c07.cms_depth", "cfg": {}, "opts": lazy})
     for b in (1, 2, 3, 4, 5, 7):
         js.append({"h": "c07.cuckoo_bits", "cfg": {"bucket": b}, "opts": lazy})
+    for counting in (False, True):
+        for bsz in (1, 2, 3, 8):
+            js.append({"h": "c07.cuckoo_reload", "cfg": {"kind": "ccuckoo" if counting else "cuckoo", "cap": 2, "bsz": bsz, "swaps": 3, "auto": True,
+                                                          "occ": [1, 0], "counting": counting, "channel": "bytes", "rate": 0.01},
+                       "opts": {"index_concretize_limit": 8, "witnesses": 1}})
     maxj = 4 if tier == "quick" else 7
     for j in range(1, maxj + 1):
         js.append({"h": "c07.cms_width", "cfg": {"lo": 2.0 ** -j, "hi": 2.0 ** -(j - 1), "half": "non-integral"},
